@@ -64,6 +64,13 @@ def _direct_inserts(sp, hb, body):
     while stack:
         n = stack.pop()
         if n.get("k") == "Match":
+            # a `for` loop is a match in the HIR; its body belongs to this arm
+            from .c16 import _is_for_loop
+            if _is_for_loop(n):
+                for lp in walk(n["arms"][0]["body"]):
+                    if lp.get("k") == "Match" and any(pat_str(a_["pat"]).startswith("Some(") for a_ in lp.get("arms", [])):
+                        stack.extend(a_["body"] for a_ in lp["arms"] if pat_str(a_["pat"]).startswith("Some("))
+                        break
             continue
         if n.get("k") == "MethodCall" and n["method"] == "insert" and "IndexSet" in (strip_transparent(n["recv"]).get("ty") or "") and n["args"]:
             a = strip_transparent(n["args"][0])
@@ -113,8 +120,37 @@ def r17_1(ctx):
         else:
             continue
         n_tables += 1
+        # the table may also be the *argument* of the insert: `types.insert(match kind { A => Some(x), .. })` or `insert(Some(match ..))`
+        wrapped = None
+        idx_rt = idx_rt if "idx_rt" in dir() else HirIndex(rt)
+        child = m
+        for p_ in idx_rt.parents(m):
+            if p_.get("k") == "Ctor" and p_.get("variant") == "Some":
+                wrapped = "some"
+            elif p_.get("k") == "MethodCall" and p_["method"] == "insert" and "IndexSet" in (strip_transparent(p_["recv"]).get("ty") or "") and any(child is strip_transparent(x) or child is x for x in p_["args"]):
+                wrapped = wrapped or "value"
+                break
+            elif p_.get("k") not in ("Block", "Ref", "Unary", "Cast"):
+                wrapped = None
+                break
+            child = p_
+        else:
+            wrapped = None
         for a in m["arms"]:
-            got, rec = _direct_inserts(sp, rt, a["body"])
+            if wrapped:
+                got, rec = set(), False
+                from .c02 import _leaves
+                for leaf in _leaves(a["body"]):
+                    lf = strip_transparent(leaf)
+                    if lf.get("k") == "Path" and lf["res"].get("variant") == "None":
+                        got.add("null")
+                        continue
+                    if wrapped == "value" and lf.get("k") == "Ctor" and lf.get("variant") == "Some" and lf["args"]:
+                        lf = lf["args"][0]
+                    for kind, d in sp.prov(rt, lf):
+                        got.add(d if kind == "const" else ("<name>" if kind == "input_ident" else "?%s" % kind))
+            else:
+                got, rec = _direct_inserts(sp, rt, a["body"])
             for alt in _alts(a["pat"]):
                 key = "%s %s" % (name, alt)
                 if name == "type node" and alt in RECURSIVE_NODES:
@@ -128,7 +164,8 @@ def r17_1(ctx):
                 if name == "type reference name" and alt in RECURSIVE_NAMES:
                     txt = expr_str(a["body"])
                     which = RECURSIVE_NAMES[alt]
-                    ok = rec and ("params.%s" % which.replace("first", "first()") in txt) and got <= {"Object"}
+                    spell = ["params.%s" % which.replace("first", "first()")] + (["params.get(0)"] if which == "first" else [])
+                    ok = rec and any(sp_ in txt for sp_ in spell) and got <= {"Object"}
                     if alt == "NonNullable":
                         ok = ok and "is_some()" in txt and ".filter(" in txt
                     r.ob(key + " -> its %s type argument%s" % ("first" if which == "first" else "second", " without null" if alt == "NonNullable" else ""), ok, C.mloc(rt, a), txt[:160])
